@@ -27,6 +27,9 @@ func HarnessC20SendError() {
 	s.failPos = pos
 	s.symDigits = true
 	s.noDrop = true
+	// the RSET with which the client abandons the rejected transaction may be
+	// refused as well (with digits of its own): the verdict stays the rejection's
+	s.cleanupRset = svPick("cleanup-rset-may-fail", svParam("cleanup", 2)) == 1
 	escDigit := byte('5')
 	if class == 1 {
 		escDigit = svByte("esc-class")
@@ -37,7 +40,11 @@ func HarnessC20SendError() {
 		if ok {
 			return "2.0.0 reply to " + c.mark + " fine"
 		}
-		failed = c
+		if failed == nil {
+			failed = c
+		} else {
+			svReach("cleanup-rset-refused")
+		}
 		switch class {
 		case 1:
 			return string([]byte{escDigit}) + ".1.1 reply to " + c.mark + " refused"
